@@ -38,7 +38,7 @@ theorem getMountAndSubmounts_complete (m : Mounts) (path : Bytes) :
   TreeOrder.getMountAndSubmounts_perm_region m path
 
 /-- the mounts at/below the path, sorted by mountpoint: what `GetMountAndSubmounts` returned
-    before fix 05db66c, and still returns when no listed mount covers a listed sibling -/
+    before fix e546b99, and still returns when no listed mount covers a listed sibling -/
 def pathSorted (m : Mounts) (path : Bytes) : List MountType := TreeOrder.sortedRegion m path
 
 /-- **getMountAndSubmounts_perm**: in every case — also when the list is re-ordered along the
@@ -832,7 +832,7 @@ theorem Example3.ktF_wf : KernelProbe.KWF Example3.ktF := by
   subst hm
   constructor <;> simp [Spec.TokenOK, Spec.IsB]
 
-/-- **umount_hidden_submount_fixed_witness** (after fix 05db66c; before it this table was the
+/-- **umount_hidden_submount_fixed_witness** (after fix e546b99; before it this table was the
     witness of finding `umount-order-hidden-submount`: `umount` failed with EINVAL on every
     retry).  The table obeys the tree discipline, has a hidden mount (`¬ NoHidden`: the second
     mount on `mnt/host` covers `mnt/host/sub`), agrees with the layer's view, the layer is idle.
